@@ -213,4 +213,5 @@ def run(ctx):
                 ctx.violations.append(('regression of fixed finding %s: %s' % (k.get('id'), msg), wit, True))
             elif msg and k['kind'] == 'known':
                 ctx.known_lines.append('KNOWN-FINDING: property=C06 %s %s' % (k.get('id', ''), k['what']))
+    core.race_stress(ctx, 3 if ctx.tier == 'quick' else 25)
     findings.report(ctx, 'C06')
